@@ -372,7 +372,7 @@ theorem sortedByTime_of_forward {e : Edge} (h : e.2.2 ≤ e.1.2) : sortedByTime 
 window that contains it, together with all its shifts -/
 theorem shift_mem_copies {k : Kind} {m : Nat} {x a y b a' b' : Nat} (hf : b ≤ a)
     (hc : k = .und → canonUnd ((x, a), (y, b)) = ((x, a), (y, b)))
-    (ha' : a' ≤ m) (hb' : b' ≤ m) (hab : a' + b = a + b') :
+    (ha' : a' ≤ m) (_hb' : b' ≤ m) (hab : a' + b = a + b') :
     ((x, a'), (y, b')) ∈ copies k m ((x, a), (y, b)) := by
   by_cases hk : k = .und
   · subst hk
